@@ -300,8 +300,18 @@ func (e *Engine) ObservePackage(pkgFullTriggers []annotation.FullTrigger) {
 }
 
 func (e *Engine) buildPkgInferenceMap(triggers []annotation.FullTrigger) {
-	// Map each site to all the triggers controlled by the site
-	controlledTgsBySite := map[primitiveSite]map[annotation.FullTrigger]bool{}
+	// Map each site to all the triggers controlled by the site. Note that this method is called
+	// more than once for a package (see ObservePackage), so we must add to the controlled triggers
+	// registered by earlier calls instead of replacing them: their controlling sites may only be
+	// determined while processing the triggers of a later call.
+	if e.controlledTriggersBySite == nil {
+		e.controlledTriggersBySite = map[primitiveSite]map[annotation.FullTrigger]bool{}
+	}
+	// alreadyNilable records the controlling sites that were determined to be nilable before this
+	// call (by an upstream package, an annotation, or an earlier call of this method). No further
+	// determination of such a site will happen, so nothing would ever activate the triggers it
+	// controls; we activate them ourselves below.
+	alreadyNilable := map[primitiveSite]bool{}
 	for _, trigger := range triggers {
 		if !trigger.Controlled() {
 			continue
@@ -310,20 +320,27 @@ func (e *Engine) buildPkgInferenceMap(triggers []annotation.FullTrigger) {
 		// consumer, which Kind() method returns Conditional which is not deep. Thus, we pass false
 		// here.
 		site := e.primitive.site(trigger.Controller, false)
-		ts, ok := controlledTgsBySite[site]
+		ts, ok := e.controlledTriggersBySite[site]
 		if !ok {
 			ts = map[annotation.FullTrigger]bool{}
-			controlledTgsBySite[site] = ts
+			e.controlledTriggersBySite[site] = ts
 		}
 		ts[trigger] = true
+		if val, ok := e.inferredMap.Load(site); ok {
+			if v, ok := val.(*DeterminedVal); ok && v.Bool.Val() {
+				alreadyNilable[site] = true
+			}
+		}
 	}
-	e.controlledTriggersBySite = controlledTgsBySite
 
 	for _, trigger := range triggers {
 		// As the initial status, the controlled triggers are skipped and NilAway just pretends not
 		// to see them. Those controlled triggers will be activated and encoded into the inference
 		// map when the sites controlling them are assigned to proper values.
 		if trigger.Controlled() {
+			if alreadyNilable[e.primitive.site(trigger.Controller, false)] {
+				e.buildFromSingleFullTrigger(trigger)
+			}
 			continue
 		}
 		e.buildFromSingleFullTrigger(trigger)
